@@ -203,6 +203,7 @@ type SimWriter struct {
 	Calls    []WriteRec
 	FailCall int // -1: never; else 0-based index of the Write call that fails (and all later ones if Sticky)
 	Sticky   bool
+	Short    bool // the failing call accepts the first half of its bytes and reports that count with the error
 	FaultHit bool
 }
 
@@ -213,6 +214,10 @@ func (w *SimWriter) Write(p []byte) (int, error) {
 	w.Calls = append(w.Calls, WriteRec{Off: len(w.Buf), Len: len(p)})
 	if w.FailCall >= 0 && (k == w.FailCall || (w.Sticky && k > w.FailCall)) {
 		w.FaultHit = true
+		if w.Short && len(p) > 1 {
+			w.Buf = append(w.Buf, p[:len(p)/2]...)
+			return len(p) / 2, ErrInjected
+		}
 		return 0, ErrInjected
 	}
 	w.Buf = append(w.Buf, p...)
